@@ -27,6 +27,8 @@ def h12_consume_mem(S):
     arrives_after = [0.0005, 0.3, 1.2][S.pick("arrives_after", 3)] if origin == 2 else None
     # ... and the wall clock has moved on since the consumer started to wait
     advance = S.int("clock_advanced_while_waiting", 0, 2 * SEC) if origin == 2 else 0
+    # ... during which the consumer may have been paused (and resumed only after the clock had moved on)
+    paused_meanwhile = origin == 2 and S.flag("consumer_paused_while_waiting")
     params = P.Parameters(timestamp=S.datetime_us(ts), ttl=S.timedelta_us(ttl) if has_ttl else None,
                           delay=P.DelayProperties(next_execution_time=S.datetime_us(due) if origin == 1 else None))
     key = RoutingKey(topic="job", queue="default", id_="m1")
@@ -49,9 +51,17 @@ def h12_consume_mem(S):
             # e.g. handed back by another consumer, or enqueued late by a producer with an old timestamp
             import asyncio
             waiting = asyncio.ensure_future(try_consume(cons, timeout=2.5))
+            waiting.add_done_callback(lambda f: out.setdefault("decided_at", clock.us))      # the clock reading at the hand-over
             await asyncio.sleep(arrives_after)
-            clock.set(now + advance)
-            await broker.enqueue(key, "p", params)
+            if paused_meanwhile:
+                await cons.pause()
+                await broker.enqueue(key, "p", params)
+                await asyncio.sleep(0.01)
+                clock.set(now + advance)
+                await cons.unpause()
+            else:
+                clock.set(now + advance)
+                await broker.enqueue(key, "p", params)
             out["got"] = await waiting
         else:
             out["got"] = await try_consume(cons)
@@ -63,7 +73,7 @@ def h12_consume_mem(S):
     run_async(main, clock=clock)
     got = out["got"] is not None
     names = place_names(out["places"], "m1")
-    now = now + advance                  # the instant of the delivery decision
+    now = out.get("decided_at", now + advance)                  # the instant of the delivery decision
     if origin == 1 and not (now > due):
         S.cover("not-due")
         S.check("not-due-stays-delayed", (not got) and names == ["delayed"])
